@@ -155,8 +155,31 @@ Fixpoint postponed_after_fetch (tr : list slabel) (fetched : option string) (acc
     | _ => postponed_after_fetch r fetched acc
     end
   end.
+(* What the finding excuses, exactly: the task was read by the scheduler (GetNext of the announcing Step, or a
+   GetById), then postponed, and the NEXT MarkAsDispatched may have taken effect (returned nil, or failed after
+   taking effect). A MarkAsDispatched that failed without effect - or a dispatch given up while waiting for a
+   worker - excuses nothing: the driver's Retry re-reads the task and must notice the postponement. *)
+Definition markdisp_may_take_effect (f : fault) (r : cret) : bool :=
+  match f, r with FNone, RRes ROk => true | FAfter, _ => true | _, _ => false end.
+Fixpoint excused_postponements (tr : list slabel) (win : option string) (pend acc : list string) : list string :=
+  match tr with
+  | [] => acc
+  | l :: r =>
+    match l with
+    | LCall CGetNext _ _ (RRes (RTask t)) => excused_postponements r (Some (t_id t)) [] acc
+    | LCall (CGetById _) _ _ (RRes (RTask t)) => excused_postponements r (Some (t_id t)) [] acc
+    | LUser (HUpdate _ _ id p) ROk =>
+      match win, u_sched p with
+      | Some a, Some _ => excused_postponements r win (if String.eqb a id then id :: pend else pend) acc
+      | _, _ => excused_postponements r win pend acc
+      end
+    | LCall (CMarkDisp _) f _ res =>
+      excused_postponements r None [] (if markdisp_may_take_effect f res then pend ++ acc else acc)
+    | _ => excused_postponements r win pend acc
+    end
+  end.
 Definition sig_F9b2 (tr : list slabel) : bool :=
-  let w := postponed_in_window tr None [] ++ postponed_after_fetch tr None [] in
+  let w := excused_postponements tr None [] [] in
   negb (match early_starts tr with [] => true | _ => false end)
   && forallb (fun id => str_mem id w) (early_starts tr).
 Definition sig_F9b2_c20 (tr : list slabel) : bool :=
